@@ -99,8 +99,10 @@ pub struct C16;
 
 fn bedgraph_inputs() -> Vec<(String, String)> {
     // (text, chrom sizes)
-    let sizes = "chr1\t1000\nchr10\t2000\nchr2\t500\nchrUn\t77\n".to_string();
-    let t1 = "chr1\t0\t5\t1.5\nchr1\t5\t6\t-2.25\nchr1\t10\t20\t0.06792\nchr1\t20\t21\t3\nchr1\t999\t1000\t14254\nchr10\t7\t1500\t0.5\nchr2\t1\t2\t1\nchr2\t2\t3\t1\nchr2\t400\t500\t-0.001\n".to_string();
+    // chr10 is longer than the first chromosome and has a value beyond the first one's length;
+    // chrX_KI270442v1 has upper-case letters in its name (restricted queries name it)
+    let sizes = "chr1\t1000\nchr10\t2000\nchr2\t500\nchrUn\t77\nchrX_KI270442v1\t300\n".to_string();
+    let t1 = "chr1\t0\t5\t1.5\nchr1\t5\t6\t-2.25\nchr1\t10\t20\t0.06792\nchr1\t20\t21\t3\nchr1\t999\t1000\t14254\nchr10\t7\t1500\t0.5\nchr10\t1600\t1700\t4\nchr2\t1\t2\t1\nchr2\t2\t3\t1\nchr2\t400\t500\t-0.001\nchrX_KI270442v1\t0\t3\t7\nchrX_KI270442v1\t250\t300\t8\n".to_string();
     let t2 = t1.trim_end().to_string();
     let mut t3 = String::new();
     for i in 0..30 {
@@ -119,8 +121,8 @@ fn bedgraph_inputs() -> Vec<(String, String)> {
 }
 
 fn bed_inputs() -> Vec<(String, String)> {
-    let sizes = "chr1\t1000\nchr10\t2000\nchr2\t500\nchrUn\t77\n".to_string();
-    let b1 = "chr1\t0\t5\tn1\t10\t+\nchr1\t2\t600\tn2\t20\t-\nchr1\t2\t3\tn3\t0\t+\nchr1\t999\t1000\tn4\t5\t-\nchr10\t7\t1500\tlong\t1\t+\nchr2\t1\t2\tx\t1\t+\nchr2\t1\t2\tx\t1\t+\nchr2\t400\t500\ty\t2\t-\n".to_string();
+    let sizes = "chr1\t1000\nchr10\t2000\nchr2\t500\nchrUn\t77\nchrX_KI270442v1\t300\n".to_string();
+    let b1 = "chr1\t0\t5\tn1\t10\t+\nchr1\t2\t600\tn2\t20\t-\nchr1\t2\t3\tn3\t0\t+\nchr1\t999\t1000\tn4\t5\t-\nchr10\t7\t1500\tlong\t1\t+\nchr10\t1600\t1700\tfar\t2\t-\nchr2\t1\t2\tx\t1\t+\nchr2\t1\t2\tx\t1\t+\nchr2\t400\t500\ty\t2\t-\nchrX_KI270442v1\t0\t3\tup\t7\t+\nchrX_KI270442v1\t250\t300\tUP\t8\t-\n".to_string();
     let b2 = "chr1\t0\t5\nchr1\t5\t6\nchr10\t7\t1500\nchr2\t400\t500\n".to_string();
     let b3 = "chr1\t10\t100\tgene\t900\t+\t20\t90\t255,0,0\t2\t10,20,\t0,70,\nchr2\t5\t50\tg2\t1\t-\t5\t50\t0\t1\t45,\t0,\n".to_string();
     let b4 = b1.trim_end().to_string();
@@ -298,7 +300,8 @@ impl Check for C16 {
         let regions: Vec<(String, Option<u32>, Option<u32>)> = {
             let (c0, l0) = present[0].clone();
             let (c1, _) = present[present.len() - 1].clone();
-            vec![(c0.clone(), None, None), (c0.clone(), Some(2), Some(11)), (c0.clone(), Some(5), None), (c0.clone(), None, Some(6)), (c0.clone(), Some(l0 - 1), Some(l0)), (c1.clone(), Some(0), Some(1)), (c1, Some(3), Some(3))]
+            let mid = present[1.min(present.len() - 1)].clone();
+            vec![(mid.0.clone(), Some(l0), None), (mid.0.clone(), None, None), (c0.clone(), None, None), (c0.clone(), Some(2), Some(11)), (c0.clone(), Some(5), None), (c0.clone(), None, Some(6)), (c0.clone(), Some(l0 - 1), Some(l0)), (c1.clone(), Some(0), Some(1)), (c1, Some(3), Some(3))]
         };
         for (ri, (chrom, st, en)) in regions.iter().enumerate() {
             let mut a: Vec<String> = if c.multicall { vec![s("bigtools"), s(back_tool)] } else { vec![s(back_tool)] };
@@ -392,7 +395,7 @@ impl Check for C16 {
             "product": "threads {1,2,3,6,16} x parallel {auto,yes,no} x single-pass x inmemory x uncompressed x block-size {2,256} x zooms x {applet, bigtools <sub>} x {native flags, UCSC spellings and names}",
             "subsample": if tier == Tier::Quick { "systematic 1-in-19 of the mixed-radix product" } else { "full product" },
             "configurations": c16_all(tier == Tier::Quick).len(),
-            "back_conversion": "-t 1, 2, 6, 16 (+ --inmemory) and 7 restricted (chrom,start,end) variants per file",
+            "back_conversion": "-t 1, 2, 6, 16 (+ --inmemory) and 9 restricted (chrom,start,end) variants per file",
         })
     }
     fn case_cap_s(&self) -> u64 {
